@@ -11,7 +11,7 @@
 import ast
 import re
 
-from sa.interp import expand_bound, alpha, Interp, Scenario, Sym, Const, Bytes, render
+from sa.interp import expand_bound, alpha, Interp, Scenario, Sym, Const, Bytes, Obj, Enum, render
 from sa.loader import AnalysisError, dotted
 from sa.cfg import CFG, calls_in
 from sa import families, tables, keyaction
@@ -194,78 +194,68 @@ def check_or(rep, prog, ci):
                           'the sibling receives a copy, marked as coming from the sibling', where='%s:%d' % (orf.module.relpath, c[3]))
 
 
-def keymaterial_table(prog):
-    """(public?, algorithm member) -> class name, and the texts under which the table is looked up: the dict literal of
-    PubKeyV4.pkalg_int, or the same table kept as a class / module constant."""
-    try:
-        f, tbl = tables.keymaterial_table(prog)
-        return f, tbl, []
-    except AnalysisError:
-        pass
+def selected_material(prog, f, public, alg):
+    """Class of the key material PubKeyV4.pkalg_int installs in a packet of the given kind for the given algorithm: the setter
+    is interpreted with the kind and the algorithm as scenario facts, table lookups with constant keys are decided by the
+    interpreter - whatever holds the table (a dict in the function, a class / module constant, two tables, an if-chain)."""
+    me = f.params[0]
+    bind = {'%s.public' % me: Const(public), '%s.pkalg' % me: alg, '%s._pkalg' % me: alg}
+    args = {p: alg for p in f.params[1:]}
+    out = set()
+    for s in Interp(prog, Scenario(bind=bind, args=args, inline=noinline)).run(f):
+        if s.raised is not None:
+            continue
+        vals = [v for p, t, l, v in s.stores if p == '%s.keymaterial' % me]
+        if not vals:
+            raise AnalysisError('PubKeyV4.pkalg_int: a path stores no key material')
+        v = vals[-1]
+        if not isinstance(v, Obj) or v.cls is None:
+            raise AnalysisError('PubKeyV4.pkalg_int: key material for (%s, %s) is not a decided class: %s' % (public, render(alg), render(v)[-80:]))
+        out.add(v.cls)
+    if len(out) != 1:
+        raise AnalysisError('PubKeyV4.pkalg_int: %d candidate classes for (%s, %s)' % (len(out), public, render(alg)))
+    return out.pop()
+
+
+def check_table(rep, prog):
     ci = prog.cls('pgpy.packet.packets', 'PubKeyV4')
     f = ci.methods.get('pkalg_int')
     if f is None:
         raise AnalysisError('PubKeyV4.pkalg_int vanished')
-    cands = [(n, v, ['%s.%s' % (f.params[0], n), '%s.%s' % (c.name, n)]) for c in ci.mro() if hasattr(c, 'attrs') for n, v in c.attrs.items()] + \
-            [(n, v, [n]) for n, v in ci.module.assigns.items()]
-    used = set(n.attr if isinstance(n, ast.Attribute) else n.id for n in ast.walk(f.node) if isinstance(n, (ast.Attribute, ast.Name)))
-    for name, val, texts in cands:
-        if name in used and isinstance(val, ast.Dict) and val.keys and all(
-                isinstance(k, ast.Tuple) and len(k.elts) == 2 and isinstance(k.elts[0], ast.Constant) and isinstance(k.elts[0].value, bool) for k in val.keys):
-            out = {}
-            for k, v in zip(val.keys, val.values):
-                out[(k.elts[0].value, (dotted(k.elts[1]) or ast.unparse(k.elts[1])).split('.')[-1])] = dotted(v) or ast.unparse(v)
-            return f, out, texts
-    raise AnalysisError('key-material class table of PubKeyV4.pkalg_int not found')
-
-
-def check_table(rep, prog):
-    f, tbl, table_names = keymaterial_table(prog)
     fields = prog.module('pgpy.packet.fields')
     privbase = fields.classes.get('PrivKey')
     if privbase is None:
         raise AnalysisError('fields.PrivKey vanished')
-    algs = sorted(set(a for (_, a) in tbl))
-    for a in algs:
-        pub = fields.classes.get(tbl.get((True, a), ''))
-        priv = fields.classes.get(tbl.get((False, a), ''))
-        if pub is None or priv is None:
-            rep.violation('C07.4', 'PubKeyV4.pkalg_int', 'row %s: %s / %s' % (a, tbl.get((True, a)), tbl.get((False, a))),
+    members = prog.cls('pgpy.constants', 'PubKeyAlgorithm').enum_members()
+    if len(members) < 9:
+        raise AnalysisError('PubKeyAlgorithm has only %d members' % len(members))
+    opaque = lambda c: c.name.startswith('Opaque')  # noqa: E731
+    n_real = 0
+    for a, val in sorted(members.items(), key=lambda kv: kv[1]):
+        alg = Const(Enum('PubKeyAlgorithm', a, val))
+        pub = selected_material(prog, f, True, alg)
+        priv = selected_material(prog, f, False, alg)
+        if opaque(pub) and opaque(priv):
+            # not implemented: opaque material of the packet's own kind
+            ok = privbase not in pub.mro() and privbase in priv.mro()
+            rep.check(ok, 'C07.4', 'PubKeyV4.pkalg_int', 'fallback %s: public=%s private=%s' % (a, pub.name, priv.name),
+                      'unknown algorithms get opaque material of the packet\'s own kind', where=f.where,
+                      expected='OpaquePubKey / OpaquePrivKey', found=[pub.name, priv.name], scenario=a)
+            continue
+        n_real += 1
+        if opaque(pub) or opaque(priv):
+            rep.violation('C07.4', 'PubKeyV4.pkalg_int', 'row %s: %s / %s' % (a, pub.name, priv.name),
                           'algorithm %s lacks a public or a private key-material class' % a, where=f.where, scenario=a)
             continue
         ok = privbase not in pub.mro() and privbase in priv.mro() and pub in priv.mro()
         rep.check(ok, 'C07.4', 'PubKeyV4.pkalg_int', '%s: public=%s private=%s' % (a, pub.name, priv.name),
                   'a public key packet must be given public-only key material, and the private class must extend exactly that public class',
                   where=f.where, expected='public class not a PrivKey; private class a PrivKey subclass of the public one',
-                  found='public %s (mro %s)' % (pub.name, [c.name for c in pub.mro()][:4]), scenario=a)
+                  found='public %s (mro %s), private %s' % (pub.name, [c.name for c in pub.mro()][:4], priv.name), scenario=a)
         rep.check(not pub.find_attr('__privfields__') or ast.literal_eval(pub.find_attr('__privfields__')) == (), 'C07.4', pub.name,
                   '%s has no private fields' % pub.name, 'public key material declares no secret fields', where=pub.where, scenario=a)
-    # the selector: the table is asked with the packet's own kind; fallback classes follow the same split
-    me = f.params[0]
-    for public in (True, False):
-        sc = Scenario(bind={'%s.public' % me: Const(public)}, inline=noinline)
-        looked, classes = set(), set()
-        for s in Interp(prog, sc).run(f):
-            dicts = sorted((e[2] for e in s.events if e[0] == 'assign' and e[2].startswith('{(')), key=len, reverse=True) + table_names
-            vals = [v for p, v, l, _ in s.stores if p == '%s.keymaterial' % me]
-            if not vals:
-                raise AnalysisError('PubKeyV4.pkalg_int: a path stores no key material')
-            for c in s.calls:
-                if c[0].endswith('.get') and any(c[0] == d + '.get' for d in dicts) and c[1]:
-                    looked.add(c[1][0])
-            for v in vals:
-                for d in dicts:
-                    v = v.replace(d, 'TABLE')
-                looked.update(m.group(1) for m in re.finditer(r'TABLE\[(\([^\]]*\))\]', v))
-                classes.update(n for n in re.findall(r'[A-Za-z_][A-Za-z_0-9]*', v) if n in fields.classes)
-        want = ['(%r, %s.pkalg)' % (public, me), '(%r, %s._pkalg)' % (public, me)]
-        rep.check(bool(looked) and all(k in want for k in looked), 'C07.4', 'PubKeyV4.pkalg_int', 'selector %s' % sorted(looked),
-                  'the class is selected by the packet\'s own public/private kind', where=f.where, expected='(%s.public, %s.pkalg)' % (me, me),
-                  found=sorted(looked), scenario='public=%s' % public)
-        okc = bool(classes) and all((privbase in fields.classes[c].mro()) != public for c in classes)
-        rep.check(okc, 'C07.4', 'PubKeyV4.pkalg_int', 'fallback %s' % sorted(classes),
-                  'unknown algorithms get opaque material of the packet\'s own kind', where=f.where,
-                  expected='OpaquePubKey' if public else 'OpaquePrivKey', found=sorted(classes), scenario='public=%s' % public)
+    rep.check(n_real >= 9, 'C07.4', 'PubKeyV4.pkalg_int', '%d algorithms with their own key-material classes' % n_real,
+              'the implemented algorithms keep their public / private key-material classes', where=f.where, expected='at least 9', found=n_real)
     pub = prog.method('pgpy.packet.packets', 'PubKeyV4', 'public')
     _public_predicate(rep, prog, pub, 'PubKeyV4.public', 'self', 'PubKey', 'PrivKey', 'C07.4')
     # packet class hierarchy: secret packet classes carry the Private marker, public ones do not
@@ -368,20 +358,60 @@ def fold_str(text):
 
 
 def _public_predicate(rep, prog, fn, construct, obj, pubname, privname, rid):
-    """The predicate must be true exactly for (is-a public packet, not a secret packet)."""
+    """The predicate must be true exactly for (is-a public packet, not a secret packet).  The two isinstance atoms are scenario
+    facts; the receiver is left untyped so that the class table cannot answer them, and a returned expression that still
+    contains the atoms (`return isinstance(x, A)`) is evaluated under the same facts."""
     if obj.split('.')[0] == 'self':
         obj = fn.params[0] + obj[4:]
+    atom_pub = 'isinstance(%s,%s)' % (obj, pubname)
+    atom_priv = 'isinstance(%s,%s)' % (obj, privname)
+
+    def evaluate(text, a, b):
+        try:
+            tree = ast.parse(text, mode='eval').body
+        except SyntaxError:
+            return None
+
+        def ev(n):
+            if isinstance(n, ast.Constant) and isinstance(n.value, bool):
+                return n.value
+            if isinstance(n, ast.UnaryOp) and isinstance(n.op, ast.Not):
+                v = ev(n.operand)
+                return None if v is None else not v
+            if isinstance(n, ast.BoolOp):
+                vs = [ev(x) for x in n.values]
+                if any(v is None for v in vs):
+                    return None
+                return all(vs) if isinstance(n.op, ast.And) else any(vs)
+            if isinstance(n, ast.IfExp):
+                t = ev(n.test)
+                return None if t is None else ev(n.body if t else n.orelse)
+            if isinstance(n, ast.Call):
+                t = ast.unparse(n).replace(' ', '')
+                if t == atom_pub:
+                    return a
+                if t == atom_priv:
+                    return b
+                if t.startswith('bool(') and len(n.args) == 1:
+                    return ev(n.args[0])
+            return None
+        return ev(tree)
     for a in (True, False):
         for b in (True, False):
             def oracle(t, _a=a, _b=b):
                 t = t.replace(' ', '')
-                if t == 'isinstance(%s,%s)' % (obj, pubname):
+                if t == atom_pub:
                     return _a
-                if t == 'isinstance(%s,%s)' % (obj, privname):
+                if t == atom_priv:
                     return _b
                 return None
-            outs = Interp(prog, Scenario(inline=noinline, oracle=oracle)).run(fn)
-            vals = set(render(s.ret) for s in outs)
+            me = Sym(fn.params[0], nonnull=True)
+            outs = Interp(prog, Scenario(inline=noinline, oracle=oracle)).run(fn, self_val=me)
+            vals = set()
+            for s in outs:
+                r = render(s.ret)
+                v = evaluate(r, a, b)
+                vals.add(repr(v) if v is not None else r)
             want = repr(a and not b)
             rep.check(vals == {want}, rid, construct, '%s=%s %s=%s -> %s' % (pubname, a, privname, b, sorted(vals)),
                       'an object is public iff it is a public-key object and not a secret-key object', where=fn.where, expected=want,
